@@ -1,5 +1,7 @@
 package props
 
+import "nxcheck/internal/ir"
+
 func init() {
 	register(&Check{
 		ID: "C01",
@@ -169,4 +171,30 @@ func runC01(c *Ctx) {
 	c.Fields(r7, su, "UNSUBSCRIBED literal", "wamp.Unsubscribed", nil, map[string]string{"Request": `^%msg\.Request$`}, 1)
 	c.Has(r7, su, "removes the sender, not another session", `^call:builtin:delete\(%b\.subscriptions\[%msg\.Subscription\],ok#0\.subscribers, %subscriber\)$`, 1)
 	c.R.Floor(r7, 14)
+
+	// R8: the built-in publish filter: an event is allowed only after all four lists were consulted
+	const r8 = "C01.R8 simple publish filter consults every list"
+	al := "router.(*simplePublishFilter).Allowed"
+	blAttr := `call:wamp\.AsString\(%sub\.Details\[range\(%f\.blMap\)#k\]\)#0`
+	wlAttr := `call:wamp\.AsString\(%sub\.Details\[range\(%f\.wlMap\)#k\]\)#0`
+	c.Guard(r8, al, "allow", `^return:true$`, 1,
+		clause("session id not excluded", F(`^call:slices\.Contains\(%f\.blIDs, %sub\.ID\)$`)),
+		clause("no eligible-id list, or session id eligible", T(`^\(call:builtin:len\(%f\.wlIDs\) == 0\)$`), T(`^call:slices\.Contains\(%f\.wlIDs, %sub\.ID\)$`)),
+		clause("all exclude_<attr> lists consulted", F(`^next:range\(%f\.blMap\)#more$`)),
+		clause("all eligible_<attr> lists consulted", F(`^next:range\(%f\.wlMap\)#more$`)))
+	deny := func(label string, cl ir.Clause) {
+		c.Reach(r8, al, label, ReachSpec{FromEdge: &cl, Target: `^return:true$|^val:next:range\(`, Want: false})
+	}
+	deny("excluded attribute value denies", clause("value in exclude list", T(`^call:slices\.Contains\(range\(%f\.blMap\)#v, `+blAttr+`\)$`)))
+	deny("missing eligible attribute denies", clause("no value for eligible attribute", T(`^\(`+wlAttr+` == ""\)$`)))
+	deny("value outside eligible list denies", clause("value not in eligible list", F(`^call:slices\.Contains\(range\(%f\.wlMap\)#v, `+wlAttr+`\)$`)))
+	deny("excluded session id denies", clause("id in exclude list", T(`^call:slices\.Contains\(%f\.blIDs, %sub\.ID\)$`)))
+	nf := "router.NewSimplePublishFilter"
+	c.Fields(r8, nf, "filter literal", "router.simplePublishFilter", nil, map[string]string{
+		"blMap": `^call:router\.NewSimplePublishFilter\$1\("exclude_"\)$`,
+		"wlMap": `^call:router\.NewSimplePublishFilter\$1\("eligible_"\)$`,
+	}, 1)
+	c.Has(r8, nf, "exclude ids read from option 'exclude'", `^call:wamp\.AsID\(call:wamp\.AsList\(%msg\.Options\["exclude"\],ok#0\)#0\[`, 1)
+	c.Has(r8, nf, "eligible ids read from option 'eligible'", `^call:wamp\.AsID\(call:wamp\.AsList\(%msg\.Options\["eligible"\],ok#0\)#0\[`, 1)
+	c.R.Floor(r8, 12)
 }
